@@ -14,7 +14,7 @@ CLAIM = {
          "every task that could run has finished. Nested task_function / Again sub-task chains (depth <= 3, thorough 4; symbolic return / raise / "
          "fall-through per level, extra blocking calls around the sub-call, two concurrent callers) produce exactly the call/return log of ordinary "
          "calls: a sub-task's result or exception reaches exactly its caller."
-         " Also: the exception class of a failing task, three spellings of a timed Select, tasks below priority 1 (lottery) and overdue sleeps with a turn-taking clause.",
+         " Also: the exception class of a failing task, three spellings of a timed Select, tasks below priority 1 (lottery) and overdue sleeps with a turn-taking clause. O4_epoll also covers a hang-up (EPOLLHUP) on a registered descriptor.",
  'note': "Trusted: CPython, z3, symx proxies, the stub select/clock/pinger (props/C06.py, props/env.py). The threaded select hub, CallBlocking and the "
          "epoll variant need real threads/fds and are outside the claim; integer millisecond clock.",
 }
